@@ -93,7 +93,14 @@ def special_delimiter_cases():
     vecs = [("2", "AV:N/AC:L/Au:N/C:C/I:C/A:C"), ("3", "CVSS:3.1/AV:N/AC:L/PR:N/UI:N/S:U/C:H/I:H/A:H"),
             ("3", "CVSS:3.0/AV:L/AC:H/PR:L/UI:R/S:C/C:L/I:N/A:N/E:P/MAV:A")]
     out = []
-    for d in SPECIAL_DELIMS + tuple(c for lst in (gen.confusables().get(a, ()) for a in "AaKkSsIi:/3") for c in lst):
+    # tokens of the grammar itself and their fragments (a prefix without its slash, half a field ...), and every short constant of
+    # the source tree with its head and tail cut off: what a rewritten candidate pattern may glue to, or cut from, a neighbour
+    frag = set(["CVSS:3.1", "CVSS:3.0", "CVSS:3.", "CVSS:3", "CVSS:", "CVSS", "CVSS:3.1/", "CVSS:3.0/", "CVSS:4.0/", "CVSS:4.0", "CVSS:2.0/", "CVSS:3.9",
+                "3.1", "3.1/", ".1/", "1/", "AV:N", "AV:N/", "/AV:N", "A:N", "/A:N", "A:", "AV", "/E:F", "E:F/", "Au:N/", "/MAV:X", ":N", "N/"])
+    for c in gen.tree_constants():
+        if 2 <= len(c) <= 12 and ("CVSS" in c or ":" in c or "/" in c):
+            frag.update((c, c[:-1], c[1:]))
+    for d in SPECIAL_DELIMS + tuple(sorted(frag)) + tuple(c for lst in (gen.confusables().get(a, ()) for a in "AaKkSsIi:/3") for c in lst):
         for ver, v in vecs:
             for text in (d + v, v + d, d + v + d, "see " + v + d + " and", "x " + d + v + " y"):
                 out.append({"text": text, "planted": [[ver, v]]})
